@@ -130,7 +130,7 @@ func init() {
 			it := a[0].(VIter)
 			pos := st.cells[it.Cell].(VBV).T
 			ex.safe(st, "call:Iterator.Value(invalid)", BVUlt(pos, ex.rangeCount(st, it.Prefix)))
-			key := App("rangeKey", SBytes, st.rawHas, it.Prefix, pos)
+			key := rangeKeyTerm(st, it.Prefix, pos)
 			return one(ex.sliceOf(st, Select(st.rawVal, key), TFalse))
 		},
 		"invoke:db.Iterator.Close": func(ex *Exec, st *State, cc *ssa.CallCommon, a []Value) []Value { return one(VErr{TFalse}) },
@@ -153,8 +153,8 @@ func init() {
 		},
 		"github.com/cosmos/cosmos-sdk/types.AccAddressFromBech32": func(ex *Exec, st *State, cc *ssa.CallCommon, a []Value) []Value {
 			s := strOf(a[0])
-			ok := App("validBech32", SBool, s)
-			bz := App("accBytes", SBytes, s)
+			ok := ValidBech32(s)
+			bz := AccBytes(s)
 			return []Value{ex.sliceOf(st, bz, Not(ok)), VErr{Not(ok)}}
 		},
 		"(github.com/cosmos/cosmos-sdk/types.AccAddress).String": func(ex *Exec, st *State, cc *ssa.CallCommon, a []Value) []Value {
@@ -361,8 +361,9 @@ func init() {
 			}
 			r.Fields["Denom"] = VStr{denom}
 			r.Fields["Amount"] = VBV{amt, true}
+			e := Var(fmt.Sprintf("depFail!%d", st.callN), SBool)
+			st.callN++
 			st.calls = append(st.calls, r)
-			e := App("bankSendFails", SBool, st.ext, from, mod, denom, amt)
 			st.ext = App("bankSendExt", "Ext", st.ext, from, mod, denom, amt)
 			return one(VErr{e})
 		},
@@ -371,8 +372,9 @@ func init() {
 			from := msg.F[0].(VStr).T
 			coin := msg.F[1].(VStruct)
 			denom, amt := coin.F[0].(VStr).T, coin.F[1].(VBig)
+			e := Var(fmt.Sprintf("depFail!%d", st.callN), SBool)
+			st.callN++
 			st.calls = append(st.calls, Rec{Kind: "Burn", Fields: map[string]Value{"From": VStr{from}, "Denom": VStr{denom}, "Amount": amt}, Order: []string{"From", "Denom", "Amount"}})
-			e := App("burnFails", SBool, st.ext, from, denom, amt.Nil, amt.V)
 			st.ext = App("burnExt", "Ext", st.ext, from, denom, amt.Nil, amt.V)
 			return []Value{VOpaque{"burnresp"}, VErr{e}}
 		},
@@ -381,8 +383,9 @@ func init() {
 			from, addr := msg.F[0].(VStr).T, msg.F[1].(VStr).T
 			coin := msg.F[2].(VStruct)
 			denom, amt := coin.F[0].(VStr).T, coin.F[1].(VBig)
+			e := Var(fmt.Sprintf("depFail!%d", st.callN), SBool)
+			st.callN++
 			st.calls = append(st.calls, Rec{Kind: "Mint", Fields: map[string]Value{"From": VStr{from}, "Address": VStr{addr}, "Denom": VStr{denom}, "Amount": amt}, Order: []string{"From", "Address", "Denom", "Amount"}})
-			e := App("mintFails", SBool, st.ext, from, addr, denom, amt.Nil, amt.V)
 			st.ext = App("mintExt", "Ext", st.ext, from, addr, denom, amt.Nil, amt.V)
 			return []Value{VOpaque{"mintresp"}, VErr{e}}
 		},
